@@ -493,3 +493,157 @@ func condPos(v ssa.Value) token.Pos {
 	}
 	return token.NoPos
 }
+
+// R-BLOCKKEEP: what a block parses it keeps or diagnoses, and every block's variables are checked for use.
+//
+// In the statement loops of parseProgram and parseBlockWithEndTokens a statement that was parsed (a non-nil result of
+// parseStatement, parseFunc or parseEventHandler) is appended to the statement list, or an error is recorded, on
+// every path back to the loop header: a statement that is parsed and silently dropped — a comment line behind a
+// return, say — disappears when the program is formatted, and does not run. And validateScope, which reports
+// variables that are declared but not used, runs on every path through both functions (not only for blocks that
+// end in `end`: the branches of an if are closed by `else`).
+var ruleBlockKeep = &Rule{
+	ID: "R-BLOCKKEEP",
+	Doc: "in the statement loops of parseProgram and parseBlockWithEndTokens every parsed (non-nil) statement is appended or an error is recorded on every path around the loop, " +
+		"and validateScope is called on every path through both functions",
+	Floor: 4,
+	Run:   runBlockKeep,
+}
+
+func runBlockKeep(c *Ctx, r *Reporter) {
+	p, pkg := parserPkg(c, r)
+	if pkg == nil {
+		return
+	}
+	stmtParsers := map[string]bool{"parseStatement": true, "parseFunc": true, "parseEventHandler": true}
+	for _, name := range []string{"(*parser).parseProgram", "(*parser).parseBlockWithEndTokens"} {
+		fd := FindFunc(pkg, name)
+		if fd == nil {
+			r.Undecided("%s not found", name)
+			continue
+		}
+		sf := p.SSAFunc(fd.Obj)
+		// (a) validateScope on every path
+		var vblocks []*ssa.BasicBlock
+		for _, b := range sf.Blocks {
+			for _, ins := range b.Instrs {
+				if call, ok := ins.(*ssa.Call); ok && call.Call.StaticCallee() != nil && call.Call.StaticCallee().Name() == "validateScope" {
+					vblocks = append(vblocks, b)
+				}
+			}
+		}
+		r.Check(len(vblocks) > 0 && !anyReturnPathAvoiding(sf.Blocks[0], vblocks), fd.QName()+"#validates-scope-on-every-path", p.Rel(fd.Decl.Pos()), "unused variables of the block are reported however the block ends",
+			"a path through "+name+" returns without calling validateScope: variables that are declared but never used in such a block (an if branch that is followed by else, say) are accepted")
+		// (b) parsed statements are kept or diagnosed
+		k := 0
+		for _, b := range sf.Blocks {
+			for _, ins := range b.Instrs {
+				call, ok := ins.(*ssa.Call)
+				if !ok || call.Call.StaticCallee() == nil || !stmtParsers[call.Call.StaticCallee().Name()] || !inCycle(b) {
+					continue
+				}
+				k++
+				hdr := loopHeaderOf(b)
+				// values that carry the statement
+				derived := map[ssa.Value]bool{call: true}
+				for changed := true; changed; {
+					changed = false
+					for _, b2 := range sf.Blocks {
+						for _, i2 := range b2.Instrs {
+							if ph, ok := i2.(*ssa.Phi); ok && !derived[ph] {
+								for _, e := range ph.Edges {
+									if derived[e] {
+										derived[ph] = true
+										changed = true
+									}
+								}
+							}
+						}
+					}
+				}
+				settles := func(x *ssa.BasicBlock, from int) bool { // a block that keeps or diagnoses (instructions from index `from`)
+					for _, i2 := range x.Instrs[from:] {
+						c2, ok := i2.(*ssa.Call)
+						if !ok {
+							continue
+						}
+						if bi, ok := c2.Call.Value.(*ssa.Builtin); ok && bi.Name() == "append" {
+							for _, a := range c2.Call.Args {
+								if sl, ok := a.(*ssa.Slice); ok {
+									if al, ok := sl.X.(*ssa.Alloc); ok {
+										for _, ref := range *al.Referrers() {
+											if ia, ok := ref.(*ssa.IndexAddr); ok {
+												for _, r3 := range *ia.Referrers() {
+													if st, ok := r3.(*ssa.Store); ok && derived[st.Val] {
+														return true
+													}
+												}
+											}
+										}
+									}
+								}
+							}
+						}
+						if sc := c2.Call.StaticCallee(); sc != nil && (sc.Name() == "appendError" || sc.Name() == "appendErrorForToken") {
+							return true
+						}
+					}
+					return false
+				}
+				bad := ""
+				seen := map[*ssa.BasicBlock]bool{}
+				var walk func(x *ssa.BasicBlock, from int, path string)
+				walk = func(x *ssa.BasicBlock, from int, path string) {
+					if bad != "" || (seen[x] && from == 0) {
+						return
+					}
+					if from == 0 {
+						seen[x] = true
+						if x == hdr {
+							bad = path
+							return
+						}
+					}
+					if settles(x, from) {
+						return
+					}
+					if len(x.Instrs) == 0 {
+						return
+					}
+					switch t := x.Instrs[len(x.Instrs)-1].(type) {
+					case *ssa.Return:
+						return
+					case *ssa.If:
+						if bo, ok := t.Cond.(*ssa.BinOp); ok && (bo.Op == token.EQL || bo.Op == token.NEQ) {
+							if kc, ok := bo.Y.(*ssa.Const); ok && kc.IsNil() && derived[bo.X] {
+								nonNil := 1
+								if bo.Op == token.NEQ {
+									nonNil = 0
+								}
+								walk(x.Succs[nonNil], 0, path+fmt.Sprintf("→b%d", x.Succs[nonNil].Index))
+								return
+							}
+						}
+					}
+					for _, sx := range x.Succs {
+						walk(sx, 0, path+fmt.Sprintf("→b%d", sx.Index))
+					}
+				}
+				// start right behind the call
+				idx := 0
+				for i, i2 := range b.Instrs {
+					if i2 == ssa.Instruction(call) {
+						idx = i + 1
+					}
+				}
+				walk(b, idx, fmt.Sprintf("b%d", b.Index))
+				r.Check(bad == "", fmt.Sprintf("%s#keeps-or-diagnoses[%d]:%s", fd.QName(), k, call.Call.StaticCallee().Name()), p.Rel(instrPos(call)), "a parsed statement is appended or an error is recorded before the next one is parsed",
+					"a statement returned by "+call.Call.StaticCallee().Name()+" can reach the next iteration ("+bad+") without being appended to the statement list and without an error: it is accepted and then missing from the tree — "+
+						"`evy fmt` deletes it (a comment line behind the last return of a block, say) and it never runs")
+			}
+		}
+		if k == 0 {
+			r.Undecided("%s parses no statements in a loop", name)
+		}
+	}
+}
